@@ -1,25 +1,34 @@
 //! S3 — "wrong output + linear repair" adversary ("S3 proposes, S2 replays").
 //!
 //! Starting from the honest run of an op, a public *output* is given another
-//! value by faulting the assignment that feeds it; the run is replayed under
-//! that plan (the library's own witness generation recomputes everything
-//! downstream). The harness then evaluates the circuit's gates (with
-//! `Expression::evaluate` over the mock prover's tables) around the cells that
-//! changed, picks a violated gate row, looks for an advice cell of that row
-//! that (a) was written by a native assignment (so it can be faulted), and
-//! (b) enters the violated polynomial affinely, solves for it, adds it to the
-//! plan and replays. Depth-first, bounded. Every verdict is
-//! `MockProver::verify()` on a replayed run; the harness evaluator only guides
-//! the search and cannot cause an alarm by itself.
+//! value by faulting the assignment that feeds it, and the run is replayed
+//! under that plan (the library's own witness generation recomputes everything
+//! downstream). If the replay is rejected, the harness computes the
+//! *residuals* of the replayed table: the values of the gate polynomials that
+//! do not vanish around the cells that changed (evaluated with
+//! `Expression::evaluate` over the mock prover's tables) and the differences
+//! of cells that a copy constraint ties together. It then looks for another
+//! assignment (a hint computed off-circuit by the library: quotient, carry,
+//! inverse, bit, ...) in which the first residual is *affine* — established
+//! black-box by replaying with the candidate at v+1 and v+2, so that the
+//! effect of the candidate is propagated by the library's own witness
+//! generation — solves for it, adds it to the plan and replays. Depth-first,
+//! bounded. Together with walking the whole range of small outputs this finds
+//! "wrap-around" witnesses that satisfy the intended integer relation only
+//! modulo p while passing every range check.
+//!
+//! Every verdict is `MockProver::verify()` on a replayed run; the harness
+//! evaluator only guides the search and cannot cause an alarm by itself.
 
 use std::collections::{HashMap, HashSet};
 
 use ff::Field;
 use midnight_proofs::{
     dev::{CellValue, MockProver},
-    plonk::Expression,
+    plonk::{Any, Expression},
 };
 use num_bigint::BigUint;
+use rayon::iter::ParallelIterator;
 use vpcore::{Failure, SplitMix, Verdict};
 
 use crate::e2::*;
@@ -33,17 +42,14 @@ pub struct S3Stats {
     pub accepted_correct: usize,
 }
 
-fn cell(p: &MockProver<F>, col: usize, row: usize, over: &HashMap<(usize, usize), F>) -> F {
-    if let Some(v) = over.get(&(col, row)) {
-        return *v;
-    }
+fn cell(p: &MockProver<F>, col: usize, row: usize) -> F {
     match p.advice()[col][row] {
         CellValue::Assigned(v) => v,
         _ => F::ZERO,
     }
 }
 
-fn eval(p: &MockProver<F>, e: &Expression<F>, row: usize, over: &HashMap<(usize, usize), F>) -> F {
+fn eval(p: &MockProver<F>, e: &Expression<F>, row: usize) -> F {
     let n = p.advice().first().map(|c| c.len()).unwrap_or(1) as i64;
     let at = |rot: i32| ((row as i64 + rot as i64).rem_euclid(n)) as usize;
     e.evaluate(
@@ -53,7 +59,7 @@ fn eval(p: &MockProver<F>, e: &Expression<F>, row: usize, over: &HashMap<(usize,
             CellValue::Assigned(v) => v,
             _ => F::ZERO,
         },
-        &|q| cell(p, q.column_index(), at(q.rotation().0), over),
+        &|q| cell(p, q.column_index(), at(q.rotation().0)),
         &|q| match &p.instance()[q.column_index()][at(q.rotation().0)] {
             midnight_proofs::dev::InstanceValue::Assigned(v) => *v,
             _ => F::ZERO,
@@ -66,47 +72,55 @@ fn eval(p: &MockProver<F>, e: &Expression<F>, row: usize, over: &HashMap<(usize,
     )
 }
 
-/// Advice cells (column, absolute row) queried by `e` at `row`.
-fn advice_cells(p: &MockProver<F>, e: &Expression<F>, row: usize) -> Vec<(usize, usize)> {
-    let n = p.advice().first().map(|c| c.len()).unwrap_or(1) as i64;
-    let cells = std::cell::RefCell::new(vec![]);
-    e.evaluate(
-        &|_| (),
-        &|_| (),
-        &|_| (),
-        &|q| cells.borrow_mut().push((q.column_index(), ((row as i64 + q.rotation().0 as i64).rem_euclid(n)) as usize)),
-        &|_| (),
-        &|_| (),
-        &|_| (),
-        &|_, _| (),
-        &|_, _| (),
-        &|_, _| (),
-    );
-    let mut v = cells.into_inner();
-    v.sort();
-    v.dedup();
-    v
+/// Identity of a residual: a gate polynomial at a row, or a copy constraint
+/// between two cells (permutation column index, row).
+#[derive(Clone, Copy, Debug, PartialEq, Eq, Hash)]
+enum ResId {
+    Gate(usize, usize, usize),
+    Copy(usize, usize),
 }
 
-/// Violated (gate index, poly index, row) among `rows`.
-fn violated(p: &MockProver<F>, rows: &[usize]) -> Vec<(usize, usize, usize)> {
-    let mut out = vec![];
-    let none = HashMap::new();
-    for (gi, g) in p.cs().gates().iter().enumerate() {
-        for (pi, poly) in g.polynomials().iter().enumerate() {
-            for &r in rows {
-                if eval(p, poly, r, &none) != F::ZERO {
-                    out.push((gi, pi, r));
-                }
+struct Tables {
+    mapping: Vec<Vec<(usize, usize)>>,
+    cols: Vec<midnight_proofs::plonk::Column<Any>>,
+}
+
+fn value_at(p: &MockProver<F>, t: &Tables, c: usize, r: usize) -> Option<F> {
+    let col = t.cols[c];
+    let v = match col.column_type() {
+        Any::Advice(_) => p.advice()[col.index()][r],
+        Any::Fixed => p.fixed()[col.index()][r],
+        Any::Instance => {
+            return match &p.instance()[col.index()][r] {
+                midnight_proofs::dev::InstanceValue::Assigned(v) => Some(*v),
+                _ => Some(F::ZERO),
+            }
+        }
+    };
+    match v {
+        CellValue::Assigned(v) => Some(v),
+        _ => None,
+    }
+}
+
+fn residual(p: &MockProver<F>, t: &Tables, id: ResId) -> F {
+    match id {
+        ResId::Gate(g, pi, row) => eval(p, &p.cs().gates()[g].polynomials()[pi], row),
+        ResId::Copy(c, r) => {
+            let (c2, r2) = t.mapping[c][r];
+            match (value_at(p, t, c, r), value_at(p, t, c2, r2)) {
+                (Some(a), Some(b)) => a - b,
+                _ => F::ZERO,
             }
         }
     }
-    out
 }
 
-fn changed_rows(honest: &MockProver<F>, now: &MockProver<F>) -> Vec<usize> {
-    let mut rows = HashSet::new();
+/// Non-zero residuals: gates at the rows around changed cells, and all copy
+/// constraints.
+fn residuals(honest: &MockProver<F>, now: &MockProver<F>, t: &Tables) -> Vec<ResId> {
     let usable = now.usable_rows().clone();
+    let mut rows = HashSet::new();
     for (c, col) in now.advice().iter().enumerate() {
         for r in usable.clone() {
             if col[r] != honest.advice()[c][r] {
@@ -119,19 +133,35 @@ fn changed_rows(honest: &MockProver<F>, now: &MockProver<F>) -> Vec<usize> {
             }
         }
     }
-    let mut v: Vec<usize> = rows.into_iter().collect();
-    v.sort();
-    v
+    let mut rows: Vec<usize> = rows.into_iter().collect();
+    rows.sort();
+    let mut out = vec![];
+    for (c, col) in t.mapping.iter().enumerate() {
+        for r in usable.clone() {
+            if col[r] != (c, r) && residual(now, t, ResId::Copy(c, r)) != F::ZERO {
+                out.push(ResId::Copy(c, r));
+            }
+        }
+    }
+    for (gi, g) in now.cs().gates().iter().enumerate() {
+        for (pi, poly) in g.polynomials().iter().enumerate() {
+            for &r in &rows {
+                if eval(now, poly, r) != F::ZERO {
+                    out.push(ResId::Gate(gi, pi, r));
+                }
+            }
+        }
+    }
+    out
 }
 
 /// Candidate wrong values for an output whose honest value is `y`.
-fn wrong_outputs(y: F, rng: &mut SplitMix, exhaustive_small: bool) -> Vec<F> {
+fn wrong_outputs(y: F, rng: &mut SplitMix, walk: u64) -> Vec<F> {
     let yb = f_to_big(&y);
     let mut v = vec![];
     if yb < BigUint::from(1u32 << 12) {
-        let lim = if exhaustive_small { 64u64 } else { 8 };
         // small declared range (bit, byte, remainder, comparison result): walk it
-        for c in 0..lim {
+        for c in 0..walk {
             v.push(F::from(c));
         }
         v.push(y + F::ONE);
@@ -144,93 +174,109 @@ fn wrong_outputs(y: F, rng: &mut SplitMix, exhaustive_small: bool) -> Vec<F> {
         v.push(F::ONE);
     }
     v.push(F::from(rng.next_u64()));
-    v.retain(|c| *c != y);
-    v.dedup();
+    let mut seen = HashSet::new();
+    v.retain(|c| *c != y && seen.insert(f_to_big(c)));
     v
 }
 
-#[allow(clippy::too_many_arguments)]
-fn search<O: Op>(
-    op: &O,
-    x: &[BigUint],
-    inst: &[F],
-    honest: &MockProver<F>,
-    cell_to_assign: &HashMap<(usize, usize), usize>,
-    plan: HashMap<usize, Fault<F>>,
-    depth: usize,
-    budget: &mut usize,
-    stats: &mut S3Stats,
-) -> Result<(), Failure> {
+struct Ctx<'a, O: Op> {
+    op: &'a O,
+    x: &'a [BigUint],
+    inst: &'a [F],
+    honest: &'a MockProver<F>,
+    tables: &'a Tables,
+    /// assignment index -> absolute advice cell
+    assign_cell: &'a HashMap<usize, (usize, usize)>,
+    n_assign: usize,
+    window: usize,
+    max_candidates: usize,
+}
+
+fn violation<O: Op>(cx: &Ctx<O>, plan: &HashMap<usize, Fault<F>>, run: &Run) -> Failure {
+    let cls = cx.op.classify(&run.public).unwrap_or_else(|| "unclassified".into());
+    let mut pl: Vec<_> = plan.iter().map(|(k, v)| format!("{k}:{v:?}")).collect();
+    pl.sort();
+    Failure::new(
+        format!("{}:unsound:S3:{cls}", cx.op.name()),
+        format!(
+            "MockProver accepts an assignment found by output substitution + linear repair whose public values contradict the reference: inputs x={:?}; plan (assignment index -> value) {pl:?}; exposed {:?}; honest instance {:?}",
+            cx.x, run.public, cx.inst
+        ),
+    )
+}
+
+fn search<O: Op>(cx: &Ctx<O>, plan: HashMap<usize, Fault<F>>, anchor: usize, depth: usize, budget: &mut usize, stats: &mut S3Stats) -> Result<(), Failure> {
     if *budget == 0 {
         return Ok(());
     }
     *budget -= 1;
     stats.replays += 1;
-    let (run, prover) = run_faulted_with_prover(op, x, inst.len(), plan.clone());
+    let (run, prover) = run_faulted_with_prover(cx.op, cx.x, cx.inst.len(), plan.clone());
     let Some(prover) = prover else { return Ok(()) }; // aborted witness generation
     if run.outcome.accepted() {
-        if run.public == inst {
+        if run.public == cx.inst {
             return Ok(());
         }
-        if op.judge(&run.public) {
+        if cx.op.judge(&run.public) {
             stats.accepted_correct += 1;
             return Ok(());
         }
-        let cls = op.classify(&run.public).unwrap_or_else(|| "unclassified".into());
-        let mut pl: Vec<_> = plan.iter().map(|(k, v)| format!("{k}:{v:?}")).collect();
-        pl.sort();
-        return Err(Failure::new(
-            format!("{}:unsound:S3:{cls}", op.name()),
-            format!(
-                "MockProver accepts an assignment found by output substitution + linear repair whose public values contradict the reference: inputs x={x:?}; plan (assignment index -> value) {pl:?}; exposed {:?}; honest instance {inst:?}",
-                run.public
-            ),
-        ));
+        return Err(violation(cx, &plan, &run));
     }
     if depth == 0 {
         stats.dead_ends += 1;
         return Ok(());
     }
-    let rows = changed_rows(honest, &prover);
-    let viol = violated(&prover, &rows);
-    if viol.is_empty() {
-        // only lookups / copy constraints are violated: not repairable linearly
-        stats.dead_ends += 1;
+    let res = residuals(cx.honest, &prover, cx.tables);
+    let Some(&target) = res.first() else {
+        stats.dead_ends += 1; // only lookups are violated
         return Ok(());
-    }
-    let none = HashMap::new();
+    };
+    let rho0 = residual(&prover, cx.tables, target);
+
+    // candidates: assignments around the anchor (hints are assigned close to their use)
+    let lo = anchor.saturating_sub(cx.window);
+    let hi = (anchor + cx.window).min(cx.n_assign.saturating_sub(1));
     let mut tried = 0;
-    for (gi, pi, row) in viol.into_iter().take(6) {
-        let poly = &prover.cs().gates()[gi].polynomials()[pi];
-        for (c, r) in advice_cells(&prover, poly, row) {
-            let Some(&idx) = cell_to_assign.get(&(c, r)) else { continue };
-            if plan.contains_key(&idx) {
-                continue;
-            }
-            let v0 = cell(&prover, c, r, &none);
-            let f0 = eval(&prover, poly, row, &none);
-            let f1 = eval(&prover, poly, row, &HashMap::from([((c, r), v0 + F::ONE)]));
-            let f2 = eval(&prover, poly, row, &HashMap::from([((c, r), v0 + F::from(2))]));
-            let a = f1 - f0;
-            if a == F::ZERO || f2 - f1 != a {
-                continue; // not affine in this cell (or independent of it)
-            }
-            let v_star = v0 - f0 * a.invert().unwrap();
-            stats.repairs_found += 1;
-            let mut p2 = plan.clone();
-            p2.insert(idx, Fault::Set(v_star));
-            search(op, x, inst, honest, cell_to_assign, p2, depth - 1, budget, stats)?;
-            tried += 1;
-            if tried >= 8 || *budget == 0 {
-                return Ok(());
-            }
+    // nearest first
+    let mut cands: Vec<usize> = (lo..=hi).filter(|i| !plan.contains_key(i)).collect();
+    cands.sort_by_key(|i| (*i as i64 - anchor as i64).abs());
+    for i in cands {
+        if *budget < 3 || tried >= cx.max_candidates {
+            break;
         }
+        let Some(&(c, r)) = cx.assign_cell.get(&i) else { continue };
+        let v0 = cell(&prover, c, r);
+        let probe = |delta: F, budget: &mut usize, stats: &mut S3Stats| -> Option<F> {
+            *budget = budget.saturating_sub(1);
+            stats.replays += 1;
+            let mut p = plan.clone();
+            p.insert(i, Fault::Set(v0 + delta));
+            let (_, pr) = run_faulted_with_prover(cx.op, cx.x, cx.inst.len(), p);
+            pr.map(|pr| residual(&pr, cx.tables, target))
+        };
+        tried += 1;
+        let Some(rho1) = probe(F::ONE, budget, stats) else { continue };
+        let a = rho1 - rho0;
+        if a == F::ZERO {
+            continue;
+        }
+        let Some(rho2) = probe(F::from(2), budget, stats) else { continue };
+        if rho2 - rho1 != a {
+            continue; // not affine in this assignment
+        }
+        let v_star = v0 - rho0 * a.invert().unwrap();
+        stats.repairs_found += 1;
+        let mut p2 = plan.clone();
+        p2.insert(i, Fault::Set(v_star));
+        search(cx, p2, anchor, depth - 1, budget, stats)?;
     }
     Ok(())
 }
 
 /// Runs the S3 adversary on one input tuple.
-pub fn check_s3<O: Op>(op: &O, x: &[BigUint], seed: u64, max_outputs: usize, depth: usize, budget_per_search: usize) -> Result<(S3Stats, Verdict), Failure> {
+#[allow(clippy::too_many_arguments)]
+pub fn check_s3<O: Op>(op: &O, x: &[BigUint], seed: u64, max_outputs: usize, depth: usize, budget_per_search: usize, walk: u64) -> Result<(S3Stats, Verdict), Failure> {
     let mut stats = S3Stats::default();
     let Some(inst) = op.reference(x) else {
         return Ok((stats, Verdict::trivial("out-of-domain-input-skipped")));
@@ -242,50 +288,62 @@ pub fn check_s3<O: Op>(op: &O, x: &[BigUint], seed: u64, max_outputs: usize, dep
     if !honest_run.outcome.accepted() || honest_run.public != inst {
         return Err(Failure::new(format!("{}:readback-mismatch", op.name()), format!("{:?} {:?} vs {:?}", honest_run.outcome, honest_run.public, inst)));
     }
-    // absolute cell -> assignment index (last write wins)
     let mut cell_to_assign = HashMap::new();
+    let mut assign_cell = HashMap::new();
     for rec in &honest_run.log {
         if let Some(r) = rec.abs_row {
             cell_to_assign.insert((rec.column, r), rec.index);
+            assign_cell.insert(rec.index, (rec.column, r));
         }
     }
-    // assignments feeding each public output: the advice cells linked to the instance
     let perm = honest.permutation();
-    let cols = perm.columns().to_vec();
-    use rayon::iter::ParallelIterator;
-    let mapping: Vec<Vec<(usize, usize)>> = perm.mapping().map(|c| c.collect::<Vec<_>>()).collect();
-    let ci = cols.iter().position(|c| *c.column_type() == midnight_proofs::plonk::Any::Instance && c.index() == 1);
+    let tables = Tables { cols: perm.columns().to_vec(), mapping: perm.mapping().map(|c| c.collect::<Vec<_>>()).collect() };
+    let ci = tables.cols.iter().position(|c| *c.column_type() == Any::Instance && c.index() == 1);
     let mut out_assign: Vec<(usize, usize)> = vec![]; // (instance position, assignment index)
     if let Some(ci) = ci {
         for pos in op.n_input_scalars().min(inst.len())..inst.len() {
             let start = (ci, pos);
-            let mut cur = mapping[start.0][start.1];
+            let mut cur = tables.mapping[start.0][start.1];
             let mut steps = 0;
+            // earliest assignment in the copy class: the cell the value was first written to
+            let mut best: Option<usize> = None;
             while cur != start && steps < 1 << 16 {
-                let col = cols[cur.0];
-                if let midnight_proofs::plonk::Any::Advice(_) = col.column_type() {
+                let col = tables.cols[cur.0];
+                if let Any::Advice(_) = col.column_type() {
                     if let Some(&idx) = cell_to_assign.get(&(col.index(), cur.1)) {
-                        out_assign.push((pos, idx));
-                        break;
+                        best = Some(best.map_or(idx, |b: usize| b.min(idx)));
                     }
                 }
-                cur = mapping[cur.0][cur.1];
+                cur = tables.mapping[cur.0][cur.1];
                 steps += 1;
+            }
+            if let Some(idx) = best {
+                out_assign.push((pos, idx));
             }
         }
     }
     let mut rng = SplitMix(seed);
-    // choose outputs (all if few)
     let mut chosen = out_assign.clone();
     while chosen.len() > max_outputs {
         let i = rng.below(chosen.len() as u64) as usize;
         chosen.remove(i);
     }
+    let cx = Ctx {
+        op,
+        x,
+        inst: &inst,
+        honest: &honest,
+        tables: &tables,
+        assign_cell: &assign_cell,
+        n_assign: honest_run.log.len(),
+        window: 24,
+        max_candidates: 48,
+    };
     for (pos, idx) in chosen {
-        for y in wrong_outputs(inst[pos], &mut rng, true).into_iter().take(24) {
+        for y in wrong_outputs(inst[pos], &mut rng, walk) {
             stats.searches += 1;
             let mut budget = budget_per_search;
-            search(op, x, &inst, &honest, &cell_to_assign, HashMap::from([(idx, Fault::Set(y))]), depth, &mut budget, &mut stats)?;
+            search(&cx, HashMap::from([(idx, Fault::Set(y))]), idx, depth, &mut budget, &mut stats)?;
         }
     }
     let nt = stats.repairs_found > 0;
